@@ -6,6 +6,7 @@ from framework import Case
 PROP = 'C17'
 TRANSLATORS = ['grid']
 BUILDS = ['safe', 'unsafe']
+OPT_BUILDS = {'unsafe': 'unsafe-opt'}   # thorough tier: the unsafe cases again at opt-level 3
 RULE = ('both builds (RefCell grid / raw-pointer grid under the repository feature `unsafe`), every dimension kind 1D-4D, '
         'every extent tuple (W,H,D,C) in {1..4}^4 (256 const-generic instantiations): (a) per kind and per cubic and '
         'non-cubic extents, ALL pairs (p,q) of points with all coordinates below the smallest extent: fill every point with '
